@@ -224,6 +224,17 @@ def isHermitianIO (tol : Rat) (n : Nat) (c : GQ) (one two : List GQ) : Bool :=
   tensorEq tol n (ioNormalTensors n c one two) n
     (ioNormalTensors n c.conj (hcOneBody n one) (hcTwoBody n two))
 
+/-- exact-regime test for the InteractionOperator branch (evaluated by the driver per input):
+entries of the two normal-ordered tensor families closer than the tolerance are equal -/
+def ioExactB (tol : Rat) (n : Nat) (c : GQ) (one two : List GQ) : Bool :=
+  let X := ioNormalTensors n c one two
+  let Y := ioNormalTensors n c.conj (hcOneBody n one) (hcTwoBody n two)
+  [([] : List Nat), [1, 0], [1, 1, 0, 0]].all fun k =>
+    (List.range (n * n * n * n + 1)).all fun i =>
+      let x := ((Dict.get? X k).getD []).getD i 0
+      let y := ((Dict.get? Y k).getD []).getD i 0
+      !(decide ((x - y).normSq < tol * tol)) || decide (x = y)
+
 def isHermitianQubit (tol : Rat) (a : Op) : Bool := isclose tol a (hcQubit a)
 def isHermitianQuad (tol : Rat) (a : Op) : Bool := isclose tol a (hcQuad a)
 
